@@ -123,10 +123,10 @@ def apply(rib, op):
         rib.del_from_rib(route(P[op[1]], None))
 
 
-def one_case(before_ops, cut, down_ops, per_iteration=25):
+def one_case(before_ops, cut, down_ops, per_iteration=25, after_ops=()):
     """before_ops: API operations issued on an established session; the session then sends `cut` messages and drops;
     down_ops are issued while it is down; then it is re-established"""
-    inp = {'before': [list(o) for o in before_ops], 'cut_after_messages': cut, 'while_down': [list(o) for o in down_ops], 'routes_per_iteration': per_iteration}
+    inp = {'before': [list(o) for o in before_ops], 'cut_after_messages': cut, 'while_down': [list(o) for o in down_ops], 'routes_per_iteration': per_iteration, 'after_resync': [list(o) for o in after_ops]}
     # building the world and the first session is harness set-up: if it fails the CHECK is broken (exception
     # propagates -> checker crash), it is never reported as a violation of the property
     w = c17.World(dict(routes={'A': 10}, hold=180))  # one configured route: 10.0.1.0/24 med 10
@@ -146,6 +146,12 @@ def one_case(before_ops, cut, down_ops, per_iteration=25):
         s.up()
         if not s.settle(per_iteration=per_iteration):
             return {'what': 'the new session never settles (updates keep being generated or End-of-RIB never sent)', 'input': inp}
+        # operations issued once the new session is in sync: they must reach the peer too (a withdraw after the first
+        # window of a session is where a send loop which never switched withdraws on loses it)
+        for op in after_ops:
+            apply(rib, op)
+        if after_ops and not s.settle(per_iteration=per_iteration):
+            return {'what': 'the session never settles after operations issued once in sync', 'input': inp}
     except Exception as e:  # noqa
         import traceback
 
@@ -155,7 +161,7 @@ def one_case(before_ops, cut, down_ops, per_iteration=25):
     import socket
 
     model = {0: 10}  # 10.0.1.0/24 med 10 is configured
-    for op in list(before_ops) + list(down_ops):
+    for op in list(before_ops) + list(down_ops) + list(after_ops):
         if op[0] == 'ann':
             model[op[1]] = op[2]
         else:
@@ -172,7 +178,7 @@ def one_case(before_ops, cut, down_ops, per_iteration=25):
         return {'what': f'End-of-RIB markers {sorted(s.table.eor)} do not cover the negotiated families {fams} exactly once', 'input': inp}
     # nothing happens after the re-establishment in these histories, so every UPDATE of the new session belongs to the
     # table transfer: none may follow the first End-of-RIB
-    if 'E' in s.order and 'U' in s.order[s.order.index('E') :]:
+    if not after_ops and 'E' in s.order and 'U' in s.order[s.order.index('E') :]:
         return {'what': f'End-of-RIB sent before the complete Adj-RIB-Out was re-advertised (wire order {"".join(s.order)})', 'input': inp}
     return None
 
@@ -196,6 +202,11 @@ def loss_at_every_cut(tier, seed):
         rnd.shuffle(cases)
         cases = cases[:400]
     work = [(before, cut, down, per) for before, cut, down in cases for per in (25, 1)]
+    # after the resynchronisation: a withdraw / an announce / a change, for both slice sizes and a few histories
+    for after in ((('wd', 0, None),), (('ann', 1, 10), ('wd', 1, None)), (('ann', 2, 5),), (('wd', 0, None), ('ann', 0, 30))):
+        for before in ((), (('ann', 1, 10),), (('ann', 1, 10), ('ann', 2, 5))):
+            for per in (25, 1):
+                work.append((before, len(before), (), per, after))
     if len(work) > 2000:
         # the cases are independent (each builds its own world): 14 processes
         import multiprocessing as mp
@@ -206,7 +217,7 @@ def loss_at_every_cut(tier, seed):
         results = [one_case(*w) for w in work]
     for w, f in zip(work, results):
         evals += 1
-        distinct.add(w)
+        distinct.add(tuple(w))
         if f:
             fails.append(f)
     for before, cut, down in cases:
@@ -219,7 +230,7 @@ def loss_at_every_cut(tier, seed):
 @replayer('C11', 'loss-at-every-cut')
 def _replay(f):
     i = f['input']
-    return one_case([tuple(o) for o in i['before']], i['cut_after_messages'], [tuple(o) for o in i['while_down']], i.get('routes_per_iteration', 25)) is None
+    return one_case([tuple(o) for o in i['before']], i['cut_after_messages'], [tuple(o) for o in i['while_down']], i.get('routes_per_iteration', 25), [tuple(o) for o in i.get('after_resync', [])]) is None
 
 
 # ------------------------------------------------------------------------------------------------ harness canaries
